@@ -87,9 +87,19 @@ def make_layouts(rng, n_eng, n_lines, same=False):
             if mode > 0.9:
                 T = max(1, len(text) - 1)   # too short to align -> ValueError path -> 0.5
                 L = L[:T]
+            Ls = sparse.csc_matrix(L)
+            if rng.random() < 0.25 and T > 0:
+                # an engine that builds its sparse logits from (row, col, value) triplets of the kept symbols: a kept logit that is
+                # exactly 0.0 is STORED explicitly (it still reads 0.0 = pruned everywhere in the system)
+                L2 = L.copy()
+                for _ in range(rng.randrange(1, 4)):
+                    L2[rng.randrange(T), rng.randrange(C)] = 0.0
+                rr, cc = np.nonzero(np.ones_like(L2))
+                Ls = sparse.csc_matrix((L2[rr, cc], (rr, cc)), shape=L2.shape)
+                L = L2
             line = TextLine(id='r1-l%03d' % li, baseline=np.array([[0, 10 * li], [100, 10 * li]]),
                             polygon=np.array([[0, 10 * li - 3], [100, 10 * li - 3], [100, 10 * li + 2], [0, 10 * li + 2]]),
-                            heights=[3, 2], transcription=text, logits=sparse.csc_matrix(L), characters=list(chars),
+                            heights=[3, 2], transcription=text, logits=Ls, characters=list(chars),
                             logit_coords=[0, T])
             # a confidence already stored with the line (PAGE XML `conf`, earlier export): None, low or high
             line.transcription_confidence = rng.choice([None, None, round(rng.random(), 3), 0.95, 1.0, 0.0])
@@ -116,7 +126,10 @@ def ref_confidences(line):
     if not text:
         return np.asarray([])
     labels = [line.characters.index(c) for c in text]
-    lp = np.asarray(line.get_full_logprobs(), dtype=np.float64)
+    # the posteriors from the stored sparse logits themselves: an entry that reads 0.0 (stored or not) is a pruned logit = floor -80
+    dense = np.asarray(line.logits.toarray(), dtype=np.float64)
+    dense[dense == 0] = -80.0
+    lp = dense - np.logaddexp.reduce(dense, axis=1)[:, np.newaxis]
     probs = np.exp(lp)
     T, C = probs.shape
     if T == len(labels):
